@@ -29,8 +29,10 @@ KEY, VAL = 'id', 'v'
 
 
 def BOUNDS(tier):
-    return {'max_collection_length': 2 if tier == 'quick' else 3, 'item_shapes': len(SEQ_ITEMS),
-            'value_attribute': [None, VAL], 'strict': [True, False]}
+    return {'max_collection_length': 3 if tier == 'quick' else 4, 'item_shapes': len(SEQ_ITEMS),
+            'value_attribute': [None, VAL], 'strict': [True, False],
+            'chains': 'every in-domain result is the start state of every second transform (depth 2), compared with the same '
+                      'second transform applied to a freshly built node of the documented shape'}
 
 
 def m(*pairs):
@@ -226,6 +228,7 @@ def run_case(tr, X, val, strict, res):
         return
     res.sample({'transform': tr, 'value_attribute': val, 'before': show(before), 'after': show(after)}, 2)
     shared_cases(tr, X, Xn, val, strict, res, after, payload, desc)
+    chain_cases(tr, before, expected, val, strict, res, payload, desc)
     # inverse laws
     if tr in ('seq_to_map', 'index_to_map'):
         if val is not None and any(mget(it, val) and is_map(mget(it, val)[0]) for it in (Xn[2] if tr == 'seq_to_map' else [b for a, b in Xn[2]])):
@@ -251,6 +254,37 @@ def run_case(tr, X, val, strict, res):
                 ok = all(a == c and b[0] == 'm' and strip_key(b) == strip_key(d) for (a, b), (c, d) in zip(got[2], Xn[2]))
         if not ok or [p for p in back[2] if p[0][2] != 'attr'] != [p for p in before[2] if p[0][2] != 'attr']:
             res.violation('C15:%s:inverse-law' % tr, desc + ': %s then %s gives %s' % (tr, inv, show(got)), payload)
+
+
+def outcome_of(tr2, val2, tree, strict, first=None):
+    """apply (optionally `first` = (transform, value attribute), then) tr2 to a fresh node built from the tree"""
+    node = yatiml.Node(to_node(tree))
+    try:
+        if first is not None:
+            apply(first[0], node, first[1], strict)
+        apply(tr2, node, val2, strict)
+    except Exception as e:     # noqa
+        return ('raises', type(e).__name__), view(node.yaml_node)
+    return ('returns',), view(node.yaml_node)
+
+
+def chain_cases(tr, before, expected, val, strict, res, payload, desc):
+    """non-initial start states: the node this transform produced is handed to every transform (with either value
+    attribute); the outcome must be the one obtained from a freshly built node of the same plain-data shape (a result
+    that still shares node objects with its input, or carries left-over state, shows here)"""
+    for tr2 in MODELS:
+        for val2 in (None, VAL):
+            res.transitions += 1
+            res.traces += 1
+            via = outcome_of(tr2, val2, before, strict, first=(tr, val))
+            direct = outcome_of(tr2, val2, expected, strict)
+            res.hist['chain:%s>%s:%s' % (tr, tr2, via[0][0])] += 1
+            if via != direct:
+                res.violation('C15:chain:%s>%s' % (tr, tr2),
+                              desc + ': then %s(value attribute %r) %s with %s, but on a fresh node of the same shape it %s with %s' % (
+                                  tr2, val2, ' '.join(via[0]), show(mget(via[1], 'attr')[0]) if mget(via[1], 'attr') else '<missing>',
+                                  ' '.join(direct[0]), show(mget(direct[1], 'attr')[0]) if mget(direct[1], 'attr') else '<missing>'), payload)
+                return
 
 
 def shared_cases(tr, X, Xn, val, strict, res, after, payload, desc):
@@ -332,7 +366,7 @@ def contents(tier):
     for n in range(0, L + 1):
         for items in itertools.product(SEQ_ITEMS, repeat=n):
             yield Q(items)
-    keys = ['k1', 'k2', 'k3']
+    keys = ['k1', 'k2', 'k3', 'k4']
     for n in range(0, L + 1):
         for vals in itertools.product(*[map_values(keys[i]) for i in range(n)]):
             yield M([(S('str', keys[i]), v) for i, v in enumerate(vals)])
